@@ -382,6 +382,14 @@ class TaskDispatcher(object):
 
 
         correlation_id = message.correlation_id
+        if not isinstance(correlation_id, str):
+            """
+            A message on the reply queue that can't be a response to any
+            request. Drop it, it must not take the engine down.
+            """
+            self.logger.info("Response {} has no correlation_id".format(message))
+            message.acknowledge(multiple=False)
+            return
 
         """
         Process the correlation_id to check if it had a ".invoke" or
